@@ -354,9 +354,9 @@ FlushOp(k, now, full) ==
       \* what the admission loop did, for the C04 admission properties: n segments admitted, `after` outstanding
       \* afterwards, under the windows in force at that moment; lost = segments this flush declared lost (RTO)
       adm |-> [n |-> ad.n, after |-> SDiff(k3.snd_nxt, k3.snd_una), swnd |-> k2.snd_wnd, rwnd |-> k2.rmt_wnd,
-               cwnd |-> k2.cwnd, nocwnd |-> k2.nocwnd, lost |-> x.lost]]
+               cwnd |-> k2.cwnd, nocwnd |-> k2.nocwnd, lost |-> x.lost, change |-> x.change]]
 
-NoAdm == [n |-> 0, after |-> 0, swnd |-> 0, rwnd |-> 0, cwnd |-> 0, nocwnd |-> 1, lost |-> 0]
+NoAdm == [n |-> 0, after |-> 0, swnd |-> 0, rwnd |-> 0, cwnd |-> 0, nocwnd |-> 1, lost |-> 0, change |-> 0]
 
 (* ------------------------------- Input --------------------------------- *)
 (* dgram: [segs |-> <<wire segments>>, short |-> TRUE when the datagram is shorter than one header] *)
